@@ -53,7 +53,9 @@ class Prod(fm.TimeComponent):
         pass
 
     def _update(self):
-        pass
+        self._time = self.time + H(1)
+        if self.kind == "push":
+            self.outputs["o"].push_data(1.0, self.time)
 
     def _finalize(self):
         pass
@@ -87,7 +89,7 @@ class Cons(fm.TimeComponent):
         pass
 
     def _update(self):
-        pass
+        self._time = self.time + H(1)
 
     def _finalize(self):
         pass
@@ -187,6 +189,20 @@ def run_topology(t):
                 got[(a, b)] += 1
             if got != edges:
                 bad.append(("reported_links_differ_from_created_links", f"missing {sum((edges - got).values())} extra {sum((got - edges).values())}"))
+            elif t["src"] == "push" and t["s1"] == "pull" and t["s2"] == "pull" and "L" not in t["ch1"] + t["ch2"]:
+                # the reported link list must stay exact after the run as well
+                try:
+                    comp.run(end_time=T0 + H(3))
+                    got2 = collections.Counter()
+                    for l in comp.metadata["links"]:
+                        fr, to = l["from"], l["to"]
+                        a = ("adapter", fr["adapter"]) if "adapter" in fr else ("component", fr["component"], "output", fr["output"])
+                        b = ("adapter", to["adapter"]) if "adapter" in to else ("component", to["component"], "input", to["input"])
+                        got2[(a, b)] += 1
+                    if got2 != edges:
+                        bad.append(("reported_links_differ_after_run", f"missing {sum((edges - got2).values())} extra {sum((got2 - edges).values())}"))
+                except Exception:  # noqa - these minimal components are not meant to run; only the link list is judged
+                    pass
     return want, outcome, bad
 
 
